@@ -4,7 +4,10 @@ use explore::Ctx;
 mod acct;
 mod cli;
 mod docs;
+mod pc01;
 mod pc11;
+mod pc17;
+mod phrase;
 mod pc12;
 mod pc18;
 mod shim;
@@ -22,7 +25,10 @@ fn main() {
     if std::env::var("VERIF_CASE_TIMEOUT").is_err() { c.case_timeout = std::time::Duration::from_secs(600); }
     let ctx: &'static Ctx = Box::leak(Box::new(c));
     match id.as_str() {
+        "C01" => pc01::run_c01(ctx),
+        "C14" => pc01::run_c14(ctx),
         "C11" => pc11::run(ctx),
+        "C17" => pc17::run(ctx),
         "C12" => pc12::run(ctx),
         "C15" => pc15::run(ctx),
         "C16" => pc16::run(ctx),
